@@ -54,7 +54,10 @@ func (fv *FunctionValidator) extractFunctionCalls(expression string) []FunctionC
 
 	// Use regex to match function call patterns: identifier(
 	funcPattern := regexp.MustCompile(`([a-zA-Z_][a-zA-Z0-9_]*)\s*\(`)
-	matches := funcPattern.FindAllStringSubmatchIndex(expression, -1)
+	// Match against a copy whose string literal contents are blanked, so that
+	// text like 'f(x)' inside a literal is not mistaken for a function call.
+	// The copy has the same length, match offsets stay valid for expression.
+	matches := funcPattern.FindAllStringSubmatchIndex(blankStringLiterals(expression), -1)
 
 	for _, match := range matches {
 		// match[0] is the start position of entire match
@@ -74,6 +77,24 @@ func (fv *FunctionValidator) extractFunctionCalls(expression string) []FunctionC
 	}
 
 	return functionCalls
+}
+
+// blankStringLiterals replaces the contents of '...' and "..." string literals
+// with spaces, keeping the quotes and the overall length (and thus positions).
+func blankStringLiterals(expr string) string {
+	b := []byte(expr)
+	var quote byte // 0 = outside a literal, otherwise the opening quote character
+	for i, c := range b {
+		switch {
+		case quote == 0 && (c == '\'' || c == '"'):
+			quote = c
+		case quote != 0 && c == quote:
+			quote = 0
+		case quote != 0:
+			b[i] = ' '
+		}
+	}
+	return string(b)
 }
 
 // isBuiltinFunction checks if it's a built-in function using the unified function registry
